@@ -331,14 +331,20 @@ func (f *formatter) writeFileHeader() {
 // writeFileTypes writes the types defined in a .proto file. This includes the messages, enums,
 // services, etc. All other elements are ignored since they are handled by f.writeFileHeader.
 func (f *formatter) writeFileTypes() {
-	for i, fileElement := range f.fileNode.Decls {
+	// True until an element other than an empty statement (which is not written) was seen.
+	first := true
+	for _, fileElement := range f.fileNode.Decls {
 		switch node := fileElement.(type) {
-		case *ast.PackageNode, *ast.OptionNode, *ast.ImportNode, *ast.EmptyDeclNode:
+		case *ast.EmptyDeclNode:
+			continue
+		case *ast.PackageNode, *ast.OptionNode, *ast.ImportNode:
 			// These elements have already been written by f.writeFileHeader.
+			first = false
 			continue
 		default:
 			info := f.nodeInfo(node)
-			wantNewline := f.previousNode != nil && (i == 0 || info.LeadingComments().Len() > 0)
+			wantNewline := f.previousNode != nil && (first || info.LeadingComments().Len() > 0)
+			first = false
 			if wantNewline && !f.leadingCommentsContainBlankLine(node) {
 				f.P("")
 			}
@@ -559,7 +565,7 @@ func (f *formatter) writeOptionName(optionNameNode *ast.OptionNameNode) {
 //	}
 func (f *formatter) writeMessage(messageNode *ast.MessageNode) {
 	var elementWriterFunc func()
-	if len(messageNode.Decls) != 0 {
+	if hasNonEmptyDecl(messageNode.Decls) {
 		elementWriterFunc = func() {
 			for _, decl := range messageNode.Decls {
 				f.writeNode(decl)
@@ -857,7 +863,7 @@ func (f *formatter) writeMessageFieldPrefix(messageFieldNode *ast.MessageFieldNo
 //	}
 func (f *formatter) writeEnum(enumNode *ast.EnumNode) {
 	var elementWriterFunc func()
-	if len(enumNode.Decls) > 0 {
+	if hasNonEmptyDecl(enumNode.Decls) {
 		elementWriterFunc = func() {
 			for _, decl := range enumNode.Decls {
 				f.writeNode(decl)
@@ -982,7 +988,7 @@ func (f *formatter) writeFieldReference(fieldReferenceNode *ast.FieldReferenceNo
 //	}
 func (f *formatter) writeExtend(extendNode *ast.ExtendNode) {
 	var elementWriterFunc func()
-	if len(extendNode.Decls) > 0 {
+	if hasNonEmptyDecl(extendNode.Decls) {
 		elementWriterFunc = func() {
 			for _, decl := range extendNode.Decls {
 				f.writeNode(decl)
@@ -1010,7 +1016,7 @@ func (f *formatter) writeExtend(extendNode *ast.ExtendNode) {
 //	  rpc Foo(FooRequest) returns (FooResponse) {};
 func (f *formatter) writeService(serviceNode *ast.ServiceNode) {
 	var elementWriterFunc func()
-	if len(serviceNode.Decls) > 0 {
+	if hasNonEmptyDecl(serviceNode.Decls) {
 		elementWriterFunc = func() {
 			for _, decl := range serviceNode.Decls {
 				f.writeNode(decl)
@@ -1038,7 +1044,7 @@ func (f *formatter) writeService(serviceNode *ast.ServiceNode) {
 //	};
 func (f *formatter) writeRPC(rpcNode *ast.RPCNode) {
 	var elementWriterFunc func()
-	if len(rpcNode.Decls) > 0 {
+	if hasNonEmptyDecl(rpcNode.Decls) {
 		elementWriterFunc = func() {
 			for _, decl := range rpcNode.Decls {
 				f.writeNode(decl)
@@ -1093,7 +1099,7 @@ func (f *formatter) writeRPCType(rpcTypeNode *ast.RPCTypeNode) {
 //	}
 func (f *formatter) writeOneOf(oneOfNode *ast.OneofNode) {
 	var elementWriterFunc func()
-	if len(oneOfNode.Decls) > 0 {
+	if hasNonEmptyDecl(oneOfNode.Decls) {
 		elementWriterFunc = func() {
 			for _, decl := range oneOfNode.Decls {
 				f.writeNode(decl)
@@ -1124,7 +1130,7 @@ func (f *formatter) writeOneOf(oneOfNode *ast.OneofNode) {
 //	}
 func (f *formatter) writeGroup(groupNode *ast.GroupNode) {
 	var elementWriterFunc func()
-	if len(groupNode.Decls) > 0 {
+	if hasNonEmptyDecl(groupNode.Decls) {
 		elementWriterFunc = func() {
 			for _, decl := range groupNode.Decls {
 				f.writeNode(decl)
@@ -2460,6 +2466,17 @@ func stringForFieldReference(fieldReference *ast.FieldReferenceNode) string {
 		result += ")"
 	}
 	return result
+}
+
+// hasNonEmptyDecl returns true if any of the given declarations is written,
+// i.e. is anything other than an empty statement (a lone ';').
+func hasNonEmptyDecl[T ast.Node](decls []T) bool {
+	for _, decl := range decls {
+		if _, ok := ast.Node(decl).(*ast.EmptyDeclNode); !ok {
+			return true
+		}
+	}
+	return false
 }
 
 // isOpenBrace returns true if the given node represents one of the
